@@ -1,6 +1,7 @@
 package main
 
 import (
+	"sort"
 	"math/big"
 	"regexp"
 	"encoding/hex"
@@ -58,13 +59,17 @@ func goReplay(r *Report, pkgRel, testFile, testName string, inputs map[string]st
 	}
 	defer os.RemoveAll(tmp)
 	ov := map[string]map[string]string{"Replace": {
-		filepath.Join(r.Repo, pkgRel, "zz_verif_replay_test.go"): filepath.Join(r.Verif, "replay", testFile),
+		filepath.Join(r.Repo, pkgRel, "zz_verif_replay_test.go"): replayFilePath(r, testFile),
 	}}
 	b, _ := json.Marshal(ov)
 	ovf := filepath.Join(tmp, "overlay.json")
 	os.WriteFile(ovf, b, 0644)
 	in, _ := json.Marshal(inputs)
-	argv := []string{"test", "-overlay", ovf, "-vet=off", "-count=1", "-timeout", "120s", "-v", "-run", "^" + testName + "$", "./" + pkgRel}
+	runPat := "^" + testName + "$"
+	if strings.HasSuffix(testName, "*") {
+		runPat = "^" + strings.TrimSuffix(testName, "*")
+	}
+	argv := []string{"test", "-overlay", ovf, "-vet=off", "-count=1", "-timeout", "180s", "-v", "-run", runPat, "./" + pkgRel}
 	if raceReplay {
 		argv = append([]string{"test", "-race"}, argv[1:]...)
 	}
@@ -585,4 +590,101 @@ func init() {
 			return ReplayResult{Confirmed: conf, Summary: replaySummary(out), Output: truncate(out, 4000), Driver: "TestVerifReplayAutomationCertOutsideNetblock (chain of the model: a leaf issued by the role-requesting CA, whose key is a published keymaster key; presented from outside the leaf's netblocks)"}
 		},
 	}}, replayDrivers...)
+}
+
+// replayFilePath: replay tests live in /verif/replay; demonstrations of the seeded corpus in /verif/seeded/<id>/.
+func replayFilePath(r *Report, testFile string) string {
+	if strings.HasPrefix(testFile, "seeded/") {
+		return filepath.Join(r.Verif, testFile)
+	}
+	return filepath.Join(r.Verif, "replay", testFile)
+}
+
+var corpusPkgDir = map[string]string{
+	"main": "cmd/keymasterd", "certgen": "lib/certgen", "eventnotifier": "keymasterd/eventnotifier", "eventrecorder": "eventmon/eventrecorder",
+	"ldap": "lib/pwauth/ldap", "okta": "lib/authenticators/okta", "sshagent": "lib/client/sshagent", "util": "lib/client/util",
+	"authutil": "lib/authutil", "vip": "lib/vip", "admincache": "keymasterd/admincache", "aws_identity_cert": "lib/server/aws_identity_cert",
+}
+
+var pkgLineRe = regexp.MustCompile(`(?m)^package (\w+)`)
+var ordinalRe = regexp.MustCompile(`(@[A-Za-z0-9_$./]*\d+|\.preserved@b\d+|\.entry)$`)
+
+// corpusReplay: each seeded change in /verif/seeded comes with a demonstration - a test of the real code that passes
+// while the property holds and fails for the behaviour the change introduces - and meta.json records which
+// obligation reported that change. When an obligation fails and no dedicated driver confirms a failing input, the
+// demonstrations recorded against the same clause of the same function are run on the current tree: one that
+// fails is a concrete failing history of the real code.
+func corpusReplay(r *Report, o *Obligation) (ReplayResult, bool) {
+	if o.Label == "" || os.Getenv("VERIF_NO_CORPUS_REPLAY") != "" {
+		return ReplayResult{}, false
+	}
+	fn := o.Name
+	if i := strings.Index(fn, "#"); i >= 0 {
+		fn = fn[:i]
+	}
+	metas, _ := filepath.Glob(filepath.Join(r.Verif, "seeded", "*", "meta.json"))
+	sort.Sort(sort.Reverse(sort.StringSlice(metas)))
+	tried := 0
+	var notes []string
+	for _, mp := range metas {
+		b, err := os.ReadFile(mp)
+		if err != nil {
+			continue
+		}
+		var m struct {
+			Detections []struct {
+				Obligations []string `json:"obligations"`
+			} `json:"detections"`
+		}
+		if json.Unmarshal(b, &m) != nil {
+			continue
+		}
+		hit := false
+		for _, d := range m.Detections {
+			for _, ob := range d.Obligations {
+				if strings.HasPrefix(ob, fn+"#") && strings.Contains(ob, o.Label) {
+					hit = true
+				}
+			}
+		}
+		if !hit {
+			continue
+		}
+		dir := filepath.Dir(mp)
+		id := filepath.Base(dir)
+		demo := filepath.Join(dir, "demo_test.go")
+		src, err := os.ReadFile(demo)
+		if err != nil {
+			continue
+		}
+		pm := pkgLineRe.FindSubmatch(src)
+		if pm == nil || corpusPkgDir[string(pm[1])] == "" {
+			continue
+		}
+		if tried >= 3 {
+			break
+		}
+		tried++
+		out, _ := goReplay(r, corpusPkgDir[string(pm[1])], "seeded/"+id+"/demo_test.go", "TestSeeded*", map[string]string{})
+		if strings.Contains(out, "[build failed]") || strings.Contains(out, "[setup failed]") {
+			notes = append(notes, id+": does not build on this tree")
+			continue
+		}
+		if strings.Contains(out, "--- FAIL") {
+			var keep []string
+			for _, l := range strings.Split(out, "\n") {
+				t := strings.TrimSpace(l)
+				if strings.HasPrefix(t, "--- FAIL") || (strings.Contains(t, "_test.go:") && len(keep) < 6) {
+					keep = append(keep, t)
+				}
+			}
+			return ReplayResult{Confirmed: true, Summary: "REPLAY-CONFIRMED: the demonstration kept with seeded change " + id + " (recorded against this clause) fails on this tree: " + strings.Join(keep, " | "),
+				Output: truncate(out, 6000), Driver: "corpus demonstration seeded/" + id + "/demo_test.go (a test of the real code that passes while the property holds)"}, true
+		}
+		notes = append(notes, id+": passes")
+	}
+	if tried == 0 {
+		return ReplayResult{}, false
+	}
+	return ReplayResult{Summary: "no demonstration of the seeded corpus recorded against this clause fails on this tree (" + strings.Join(notes, "; ") + ")"}, false
 }
